@@ -357,6 +357,16 @@ def discharge(ex, timeout_ms=20000, use_cvc5=True, cvc5_agree=False):
                 r = s.check()
             if r == z3.unsat:
                 rec["status"] = "discharged"
+                # vacuity guard per sub-query: an obligation proved on a contradictory path proves nothing.
+                # Dead paths the pruner missed are legitimate, contradictory *assumptions* are not: both are
+                # counted and reported so that neither hides.
+                sv = z3.Solver()
+                sv.set("timeout", 400)
+                for t in list(ob.pc):
+                    if not ex.has_quant(t):      # quantifier-free part only: cheap, and `unsat` is definite
+                        sv.add(t)
+                if sv.check() == z3.unsat:
+                    rec["vacuous_path"] = True
                 if cvc5_agree:
                     r2 = cvc5_check(s.to_smt2(), timeout_ms)
                     rec["cvc5"] = r2
